@@ -154,7 +154,9 @@ type scen struct {
 	desc     ocispec.Descriptor
 }
 
-var headerNames = []string{"X-Verif-Secret", "X-Api-Key", "Cookie", "Authorization", "Proxy-Authorization", "X-Registry-Auth"}
+// header keys go into the request exactly as configured (RegistryHostsFromConfig does not
+// canonicalise them), so non-canonical spellings are part of the input space
+var headerNames = []string{"X-Verif-Secret", "X-Api-Key", "Cookie", "Authorization", "Proxy-Authorization", "X-Registry-Auth", "x-verif-lower", "X-verif-MiXed"}
 
 func genScenario(rng *prng.R, idx int, kind string) *scen {
 	sc := &scen{Idx: idx, Kind: kind, Static: map[string]string{}, static: map[string][2]string{}}
@@ -390,7 +392,20 @@ func (sc *scen) build(r *vf.Run) (source.RegistryHosts, bool) {
 		ms = append(ms, resolver.MirrorConfig{Host: m.Host, Header: m.Header, Insecure: m.Insecure})
 	}
 	cfg.Host[sc.refspec.Hostname()] = resolver.HostConfig{Mirrors: ms}
-	inner := resolver.RegistryHostsFromConfig(cfg, creds, static)
+	// observe the keychain at its own boundary too: what it OFFERS to the resolver stack
+	recCreds := func(host string, ref reference.Spec) (string, string, error) {
+		u, s, err := creds(host, ref)
+		o := offer{Host: host, Ref: ref.String(), User: u, Secret: s}
+		if g := greg.cur(); g != nil {
+			g.offers = append(g.offers, o)
+		} else {
+			greg.otherMu.Lock()
+			greg.other.offers = append(greg.other.offers, o)
+			greg.otherMu.Unlock()
+		}
+		return u, s, err
+	}
+	inner := resolver.RegistryHostsFromConfig(cfg, recCreds, static)
 	w := sc.w
 	return func(ref reference.Spec) ([]docker.RegistryHost, error) {
 		hs, err := inner(ref)
@@ -529,7 +544,7 @@ func runScenario(r *vf.Run, drv *gstate, sc *scen, rng *prng.R) {
 	if !ok {
 		return
 	}
-	drv.log = nil
+	drv.log, drv.offers = nil, nil
 	drv.lastLabel, drv.lastURL, drv.lastMethod, drv.lastStatus, drv.pending = "", "", "", 0, ""
 	for k := range drv.hits {
 		delete(drv.hits, k)
@@ -571,7 +586,9 @@ func runScenario(r *vf.Run, drv *gstate, sc *scen, rng *prng.R) {
 	for k, v := range drv.hits {
 		hits[k] += v
 	}
+	offers := append([]offer(nil), drv.offers...)
 	for _, wk := range workers {
+		offers = append(offers, wk.offers...)
 		all = append(all, wk.log...)
 		for k, v := range wk.hits {
 			hits[k] += v
@@ -583,7 +600,31 @@ func runScenario(r *vf.Run, drv *gstate, sc *scen, rng *prng.R) {
 		all = append(all, greg.other.log...)
 		greg.other.log = nil
 	}
+	offers = append(offers, greg.other.offers...)
+	greg.other.offers = nil
 	greg.otherMu.Unlock()
+	// sentence 1 at the credential-function boundary: a non-empty offer for (host, ref) must
+	// be the latest, not removed pull of ref, and name no other server address than host
+	for _, o := range offers {
+		r.Count("keychain_offers_in_part_b", 1)
+		for _, str := range []string{o.User, o.Secret} {
+			m := secretRe.FindStringSubmatch(str)
+			if m == nil {
+				continue
+			}
+			r.Count("keychain_nonempty_offers_in_part_b", 1)
+			switch owner := m[2]; {
+			case owner == "decoy" || o.Ref != sc.refspec.String():
+				r.Violate("keychain-offer:credentials-of-other-reference-or-stale-or-removed",
+					fmt.Sprintf("the credential function answered (host %q, ref %q) with %q, which belongs to another reference, an earlier pull or a removed image", o.Host, o.Ref, str),
+					map[string]any{"stage": "headers", "scenario": sc, "offer": o})
+			case owner != "any" && hostClass(owner) != hostClass(o.Host):
+				r.Violate("keychain-offer:server-address-names-other-host",
+					fmt.Sprintf("the credential function answered (host %q, ref %q) with %q, captured from a pull request whose server address names %s", o.Host, o.Ref, str, owner),
+					map[string]any{"stage": "headers", "scenario": sc, "offer": o})
+			}
+		}
+	}
 	sort.SliceStable(all, func(i, j int) bool { return all[i].T < all[j].T })
 	for k, v := range hits {
 		r.Count("hook:"+k, v)
@@ -592,7 +633,11 @@ func runScenario(r *vf.Run, drv *gstate, sc *scen, rng *prng.R) {
 	paths := map[string]bool{}
 	secretOwners := map[string]bool{}
 	for i, q := range all {
-		leaks, own := sc.w.scan(q)
+		leaks, own, unj := sc.w.scan(q)
+		for _, u := range unj {
+			r.Count("unjudged_observations(outside the statement)", 1)
+			r.Distinct("unjudged_observations", u)
+		}
 		role := "unknown"
 		if h := sc.w.hosts[q.Host]; h != nil {
 			role = h.role
@@ -675,8 +720,9 @@ func (sc *scen) missingOwnHeaders(q *reqRec) string {
 					want = append(want, e.(string))
 				}
 			}
-			if strings.Join(q.Header.Values(name), "\x00") != strings.Join(want, "\x00") {
-				return fmt.Sprintf("%s (want %q, got %q)", name, want, q.Header.Values(name))
+			got := q.Header[name] // raw key: configured keys are not canonicalised
+			if strings.Join(got, "\x00") != strings.Join(want, "\x00") {
+				return fmt.Sprintf("%s (want %q, got %q)", name, want, got)
 			}
 		}
 	}
